@@ -9,13 +9,16 @@
 // usage: tsan_stress <rounds> <seed> [<only-scenario> <only-round>]
 // stdout: one line per round  "R <scenario> <round> <threads> ok"  or  "BAD <scenario> <round> <threads> <what>"
 // stderr: "ROUND <scenario> <round> <threads>" before each round (so that a TSan report can be attributed to its round)
+// watchdog: no round finished for 20 s (env C10_WATCHDOG_S) -> "C10-WATCHDOG scenario=.. round=.. seed=.." on stdout, exit status 3
 #include <atomic>
+#include <chrono>
 #include <cstdio>
 #include <cstdlib>
 #include <cstring>
 #include <string>
 #include <thread>
 #include <vector>
+#include <unistd.h>
 
 #include <tlx/thread_pool.hpp>
 
@@ -171,6 +174,23 @@ int main(int argc, char** argv) {
     rng_state = argc > 2 ? strtoull(argv[2], nullptr, 10) : 1;
     int only_sc = argc > 4 ? atoi(argv[3]) : -1, only_round = argc > 4 ? atoi(argv[4]) : -1;
     int bad = 0;
+    // watchdog: a round normally takes milliseconds; no progress for WATCHDOG_S seconds = the pool hangs (lost wake-up / deadlock)
+    static std::atomic<long> cur_round(-1), cur_sc(-1), cur_threads(0), progress(0); static std::atomic<bool> finished(false);
+    const unsigned long long seed0 = rng_state;
+    const int watchdog_s = getenv("C10_WATCHDOG_S") ? atoi(getenv("C10_WATCHDOG_S")) : 20;
+    std::thread watchdog([&]() {
+        long seen = -1; auto since = std::chrono::steady_clock::now();
+        while (!finished.load()) {
+            std::this_thread::sleep_for(std::chrono::milliseconds(100));
+            long p = progress.load();
+            if (p != seen) { seen = p; since = std::chrono::steady_clock::now(); continue; }
+            if (std::chrono::steady_clock::now() - since > std::chrono::seconds(watchdog_s)) {
+                printf("C10-WATCHDOG scenario=%ld round=%ld threads=%ld seed=%llu rounds=%d no progress for %d s\n", cur_sc.load(), cur_round.load(),
+                       cur_threads.load(), seed0, rounds, watchdog_s);
+                fflush(stdout); _exit(3);
+            }
+        }
+    });
     for (int r = 0; r < rounds; ++r) {
         size_t threads = 1 + static_cast<size_t>(r % 8);
         int sc = static_cast<int>(rnd() % 7);
@@ -179,6 +199,7 @@ int main(int argc, char** argv) {
         bool coin = (rnd() & 1) != 0;
         if (only_sc >= 0 && !(sc == only_sc && r == only_round)) continue;
         fprintf(stderr, "ROUND %d %d %zu\n", sc, r, threads); fflush(stderr);
+        cur_sc = sc; cur_round = r; cur_threads = static_cast<long>(threads); ++progress;
         std::string res;
         switch (sc) {
         case 0: res = sc_tree(threads, n, gens); break;
@@ -193,5 +214,6 @@ int main(int argc, char** argv) {
         else { printf("BAD %d %d %zu %s\n", sc, r, threads, res.c_str()); ++bad; }
         fflush(stdout);
     }
+    finished = true; watchdog.join();
     return bad ? 1 : 0;
 }
